@@ -29,8 +29,8 @@ MANIFEST_INFO = {
     "engine": "B",
     "design_ref": "DESIGN.md section 5, C20",
     "technique": "explicit-state BFS over histories of callback/errback/addCallback/match/extract_result operations on real twisted Deferreds (rebuilt by replay), abstract Deferred state machine as reference; exactly-one classification checked on three fresh replays per state; unhandled-error logging observed after dropping the Deferred; SynchronousDeferredRunTest compared differentially with the plain RunTest over generated programs",
-    "level_text": "All histories of <= 5 (quick) / 7 (thorough) operations over 4 fire values (None, 0, 'x', an already-fired nested Deferred), 2 failures, 3 callback shapes, has_no_result / succeeded(m) / failed(m) for 4 inner matchers and extract_result are applied to a fresh real Deferred; every verdict is compared with the model, `called` is compared before and after each match, the value later callbacks see is compared with the model's, and a failure inspected by succeeded()/failed() must not be logged as unhandled when the Deferred is dropped. For every generated program with <= 2 deviating stages the result log of SynchronousDeferredRunTest on stages returning already-fired Deferreds equals that of RunTest on the plain stages.",
-    "level_note": "CPython reference counting makes 'dropped' deterministic; a Deferred fired with an unfired Deferred is not generated; inspecting a failure consumes it (the Deferred then holds None), as the 'marked handled' clause implies.",
+    "level_text": "All histories of <= 6 (quick) / 8 (thorough) operations over 5 firings (None, 0, 'x', a callback returning an already-fired Deferred, a callback returning an unfired Deferred that fires later), 2 failures, 3 callback shapes, has_no_result / succeeded(m) / failed(m) for 4 inner matchers and extract_result are applied to a fresh real Deferred; every verdict is compared with the model, `called` is compared before and after each match, the value later callbacks see is compared with the model's, and a failure inspected by succeeded()/failed() must not be logged as unhandled when the Deferred is dropped. For every generated program with <= 2 deviating stages the result log of SynchronousDeferredRunTest on stages returning already-fired Deferreds equals that of RunTest on the plain stages.",
+    "level_note": "CPython reference counting makes 'dropped' deterministic; inspecting a failure consumes it (the Deferred then holds None), as the 'marked handled' clause implies.",
 }
 
 
@@ -71,6 +71,7 @@ INNER = {
 
 OPS = (
     [("cb", k) for k in FIRE_VALUES]
+    + [("cb_wait_inner",), ("fire_inner",)]
     + [("eb", "ErrA"), ("eb", "ErrB")]
     + [("addCallback", k) for k in CALLBACKS]
     + [("match", "no_result")]
@@ -86,10 +87,11 @@ class Model:
         self.kind = "none"  # none | ok | err
         self.value = None
         self.pending = []  # model callbacks registered while unfired
+        self.waiting = False  # called, but chained on an inner Deferred that has not fired yet
         self.inspected = False  # a failure now current was inspected by succeeded()/failed()
 
     def key(self):
-        return (self.fired, self.kind, repr(self.value), tuple(self.pending))
+        return (self.fired, self.waiting, self.kind, repr(self.value), tuple(self.pending))
 
     def apply_cb(self, name):
         if self.kind == "none":
@@ -120,13 +122,23 @@ class Model:
         self.fired = True
         self.kind, self.value = kind, value
         pend, self.pending = self.pending, []
-        for name in pend:
+        self.waiting = False
+        for i, name in enumerate(pend):
+            if name == "wait_inner":
+                # the chain stops here until the inner Deferred fires; later callbacks stay pending
+                if self.kind == "ok":
+                    self.kind, self.value = "none", None
+                    self.waiting = True
+                    self.pending = pend[i + 1 :]
+                    return
+                continue
             self._run(name)
 
 
 class Impl:
     def __init__(self):
         self.d = defer.Deferred()
+        self.inner = None
 
 
 class System:
@@ -138,7 +150,9 @@ class System:
     def ops(self, m):
         out = []
         for op in OPS:
-            if op[0] in ("cb", "eb") and m.fired:
+            if op[0] in ("cb", "eb", "cb_wait_inner") and m.fired:
+                continue
+            if op[0] == "fire_inner" and not m.waiting:
                 continue
             out.append(op)
         return out
@@ -153,6 +167,16 @@ class System:
                 m.apply_cb("to_n")
             d.callback(FIRE_VALUES[op[1]]())
             m.fire("ok", FIRE_MODEL[op[1]])
+        elif name == "cb_wait_inner":
+            # fired, but a callback returns a Deferred that has not fired: no result is available yet
+            impl.inner = defer.Deferred()
+            d.addCallback(lambda _, inner=impl.inner: inner)
+            m.pending.append("wait_inner")
+            d.callback("outer")
+            m.fire("ok", "outer")
+        elif name == "fire_inner":
+            impl.inner.callback("from-inner")
+            m.fire("ok", "from-inner")
         elif name == "eb":
             d.errback({"ErrA": ErrA, "ErrB": ErrB}[op[1]]("boom"))
             m.fire("err", op[1])
@@ -271,7 +295,15 @@ def state_checks(sysm, hist, res):
         sysm.apply(impl, m, op, False)
     seen = []
     impl.d.addCallbacks(lambda v: seen.append(("ok", v)) or v, lambda f: seen.append(("err", type(f.value).__name__)) or f)
-    if m.kind == "none":
+    if m.kind == "none" and m.waiting:
+        if seen:
+            problems.append(("intact", "a Deferred waiting on an inner Deferred delivered %r to a new callback" % (seen,)))
+        else:
+            impl.inner.callback("late")
+            m.fire("ok", "late")
+            if [(k, v) for k, v in seen] != [(m.kind, m.value)]:
+                problems.append(("intact", "after matching, the inner Deferred fired with 'late' but a later callback saw %r, model says %r" % (seen, [(m.kind, m.value)])))
+    elif m.kind == "none":
         if seen:
             problems.append(("intact", "a Deferred the model says is unfired delivered %r to a new callback" % (seen,)))
         else:
@@ -428,7 +460,7 @@ def run_shard(shard, tier, seed):
     res = ShardResult()
     if shard[0] == "bfs":
         gc.collect()
-        run_bfs(res, 5 if tier == "quick" else 7, first_ops=[OPS[shard[1]]])
+        run_bfs(res, 6 if tier == "quick" else 8, first_ops=[OPS[shard[1]]])
         res.notes["states_are_distinct"] = 1
         return res
     _, nc, em = shard
@@ -453,7 +485,7 @@ def meta(tier):
     return {
         "technique": MANIFEST_INFO["technique"],
         "rule": "BFS: state = abstract Deferred state (fired?, kind, value, pending callbacks), every transition executed on a fresh real Deferred by replay; non-trivial = non-initial states; plus every generated program with <= bound deviating stages for the runner comparison",
-        "bounds": {"history_depth": 5 if tier == "quick" else 7, "ops": len(OPS), "sync_runner_deviations": 2 if tier == "quick" else 3},
+        "bounds": {"history_depth": 6 if tier == "quick" else 8, "ops": len(OPS), "sync_runner_deviations": 2 if tier == "quick" else 3},
         "assumptions": MANIFEST_INFO["level_note"].split("; "),
     }
 
